@@ -174,6 +174,15 @@ int ezc3d::ParametersNS::GroupNS::Parameter::read(ezc3d::c3d &file, int nbCharIn
         for (int i=0; i<nDimensions; ++i)
             _dimension.push_back (file.readUint(1*ezc3d::DATA_TYPE::BYTE));    // Read the dimension size of the matrix
 
+    // The data lie inside the parameter record, which cannot hold more than 65535 bytes: refuse dimensions that
+    // announce more (a dimension of 0 is counted as 1, since the readers still loop over the other dimensions)
+    size_t nbLoops(1);
+    for (size_t i=0; i<_dimension.size(); ++i){
+        nbLoops *= _dimension[i] == 0 ? 1 : _dimension[i];
+        if (nbLoops > 65535)
+            throw std::ios_base::failure ("Parameter dimensions are larger than a parameter record");
+    }
+
     // Read the data for the parameters
     if (_data_type == DATA_TYPE::CHAR)
         file.readParam(_dimension, _param_data_string);
